@@ -86,6 +86,15 @@ def gen(ctx):
                     bad = {'num': b'a', 'alnum': b'a', 'byte': b'\x00', 'kanji': r.choice([b'a', b'\xe3\x81', b'\xff', '丂'.encode(), b'\xf0\x9f\x98\x80'])}[k]
                     data = bad + good if pos == 'first' else good + bad
                     add(sym, ver, level, 0, [(ref.MODE[k], data)], 'badchar')
+                # every position of every short length: the codecs treat the groups of 3 / 2 characters and the final group of
+                # each remainder class separately, so an invalid character must be tried in each of them
+                if k in ('num', 'alnum', 'byte'):
+                    bads = {'num': [b'a', b':', b'\x00'], 'alnum': [b'a', b'\x00', b'#'], 'byte': []}[k]
+                    for n in range(1, 8):
+                        for at in range(n):
+                            for bad in bads:
+                                good = symgen.payload(r, k, n)
+                                add(sym, ver, level, 0, [(ref.MODE[k], good[:at] + bad + good[at + 1:])], 'badchar')
     # the image method (*QRCode).Encode on the same hand-built descriptions: it must accept exactly what EncodeToBitmap
     # accepts, never panic, and at quiet zone 0 / module size 1 be the bitmap itself (implementation only)
     img = [i for i, m in enumerate(meta) if m[5] in ('fields', 'mask', 'mode', 'badchar') or i % (4 if ctx.tier == 'quick' else 2) == 0]
